@@ -9,6 +9,8 @@ import (
 	"strings"
 	"testing"
 	"testing/iotest"
+	"text/scanner"
+	"unicode"
 
 	"github.com/alecthomas/participle/v2"
 	"github.com/alecthomas/participle/v2/lexer"
@@ -34,6 +36,33 @@ type c15Case struct {
 	// lexer-definition cases: a generated rule set and several inputs (hex) whose lexers are alive at the same time
 	RS        *lexgen.RuleSet `json:"rules,omitempty"`
 	InputsHex []string        `json:"inputs_hex,omitempty"`
+	// ... or a text/scanner definition with a configuration of the caller's (lexer.NewTextScannerLexer): 1 keeps
+	// comments, 2 scans neither floats nor chars, 3 treats '-' as part of an identifier
+	ScanCfg int `json:"scan_cfg,omitempty"`
+}
+
+// scanCfgDef builds the configured text/scanner definition of a case (C15-r12m1: an entry point that forgets the
+// caller's configuration tokenises differently from the others).
+func scanCfgDef(n int) lexer.Definition {
+	return lexer.NewTextScannerLexer(func(s *scanner.Scanner) {
+		switch n {
+		case 1:
+			s.Mode &^= scanner.SkipComments
+		case 2:
+			s.Mode &^= scanner.ScanFloats | scanner.ScanChars
+		case 3:
+			s.IsIdentRune = func(ch rune, i int) bool {
+				return ch == '_' || unicode.IsLetter(ch) || (i > 0 && (ch == '-' || unicode.IsDigit(ch)))
+			}
+		}
+	})
+}
+
+func (c *c15Case) defText() string {
+	if c.RS != nil {
+		return c.RS.String()
+	}
+	return fmt.Sprintf("lexer.NewTextScannerLexer, configuration %d", c.ScanCfg)
 }
 
 // pue = parser under examination: the entry points of one parser, type-erased.
@@ -588,7 +617,7 @@ func checkC15Lex(c *c15Case, def lexer.Definition, r *vstat.Run) outcome {
 		b, _ := hexBytes(h)
 		ins = append(ins, b)
 	}
-	desc := func(i int) string { return fmt.Sprintf("input %q\n%s", ins[i], c.RS.String()) }
+	desc := func(i int) string { return fmt.Sprintf("input %q\n%s", ins[i], c.defText()) }
 	alone := make([]stream, len(ins))
 	var out outcome
 	if m := guard(func() {
@@ -674,7 +703,7 @@ func checkC15Lex(c *c15Case, def lexer.Definition, r *vstat.Run) outcome {
 			}
 		}
 	}); m != "" {
-		return violationf("panic", "lexing panicked: %s\n%s", m, c.RS.String())
+		return violationf("panic", "lexing panicked: %s\n%s", m, c.defText())
 	}
 	return out
 }
@@ -712,6 +741,26 @@ func TestC15(t *testing.T) {
 	runProp(t, "C15", c15Rule, func(t *rapid.T, r *vstat.Run) {
 		filename := rapid.SampledFrom([]string{"f", "", "dir/x.cfg"}).Draw(t, "filename")
 		kind := rapid.IntRange(0, 11).Draw(t, "kind")
+		if kind >= 10 && rapid.IntRange(0, 3).Draw(t, "scancfg?") == 0 {
+			// a lexer definition on its own: text/scanner with a configuration of the caller's
+			c := &c15Case{ScanCfg: rapid.IntRange(1, 3).Draw(t, "scancfg"), Filename: filename}
+			c.Text = c.defText()
+			words := []string{"a", "b-c", "12", "1.5", "// c\n", "/* x */", "\"s\"", "+", " ", "\n", "'c'", "`r`", "-", "x1", ".", "é"}
+			for i, n := 0, rapid.IntRange(2, 4).Draw(t, "nlexers"); i < n; i++ {
+				var sb strings.Builder
+				for j, m := 0, rapid.IntRange(0, 8).Draw(t, "nwords"); j < m; j++ {
+					sb.WriteString(rapid.SampledFrom(words).Draw(t, "word"))
+					if rapid.Bool().Draw(t, "sp") {
+						sb.WriteString(" ")
+					}
+				}
+				c.InputsHex = append(c.InputsHex, fmt.Sprintf("%x", sb.String()))
+			}
+			r.Count("configured_text_scanner_cases")
+			r.NonTrivial(mustJSON(c), func() any { return c })
+			report(t, r, checkC15Lex(c, scanCfgDef(c.ScanCfg), r), c)
+			return
+		}
 		if kind >= 10 {
 			// a lexer definition on its own: generated multi-state rule sets
 			g := lexgen.GenRuleSet(t, lexgen.RuleOpts{})
@@ -777,6 +826,9 @@ func TestC15Replay(t *testing.T) {
 		var c c15Case
 		if err := json.Unmarshal(raw, &c); err != nil {
 			return violationf("harness", "bad replay: %v", err)
+		}
+		if c.ScanCfg != 0 {
+			return checkC15Lex(&c, scanCfgDef(c.ScanCfg), nil)
 		}
 		if c.RS != nil {
 			def, rej := newDef(c.RS)
